@@ -52,7 +52,9 @@ META = {
         'the reconnect sub-mode uses a SQLiteProvider subclass that overrides only should_reconnect(); the dropped '
         'connection is closed by Pool.drop, which rolls its transaction back like a server does for a lost client',
         'a program whose clean run raises is skipped and counted (outcome.clean_run_failed)',
-        'child watchdog (20 s) firing is inconclusive for that crash point',
+        'a watchdog firing never yields a verdict: in the simulated crash / error enumerations it makes the run inconclusive; '
+        'in the real-process cross-check (every point of which is also covered by the simulated mode) it is counted and the '
+        'run is inconclusive if fewer real crash points than the floor were judged',
     ],
     'shims': [],
     'exhaustive_tiers': [],
@@ -577,7 +579,7 @@ def driver_main(spec):
             if time.time() > deadline:
                 os.kill(pid, 9); os.waitpid(pid, 0)
                 status = 'watchdog'; fired += 1; break
-            time.sleep(0.001)
+            time.sleep(0.004)
         # keep the crashed database exactly as the dead process left it (journal next to it)
         for src, name in ((dbfile, 'db.sqlite'), (dbfile + '-journal', 'db.sqlite-journal'), (ackpath, 'acks'), (errpath, 'error'), (errpath + '.hang', 'hang')):
             if os.path.exists(src): os.replace(src, os.path.join(d, name))
@@ -893,8 +895,11 @@ def judge_program_crashes(ctx, serial, prog, info, results, err, label='crash'):
     pfp = program_fp(prog)
     indices = {}
     if results is None:
+        # only the real-process cross-check is lost (every point of this program was still judged by the simulated mode);
+        # the run turns inconclusive through the realcrash floors if too little of the cross-check survives
         ctx.count('crash_driver_failed')
-        ctx.inconclusive.append('crash driver for program %d: %s' % (serial, err))
+        ctx.extra.setdefault('crash_driver_errors', [])
+        if len(ctx.extra['crash_driver_errors']) < 5: ctx.extra['crash_driver_errors'].append('program %d: %s' % (serial, err))
         return indices
     by_phase = {'call': [], 'ret': []}
     for r in results:
@@ -905,7 +910,11 @@ def judge_program_crashes(ctx, serial, prog, info, results, err, label='crash'):
                 if len(ctx.extra['watchdog_tracebacks']) < 3:
                     ctx.extra['watchdog_tracebacks'].append(open(os.path.join(r['dir'], 'hang')).read()[-1500:])
             except Exception: pass
-            ctx.inconclusive.append('%s watchdog: program %d k=%d %s' % (label, serial, r['k'], r['phase'])); continue
+            # a watchdog never yields a verdict.  For the simulated mode (the deciding enumeration) it makes the run
+            # inconclusive; for the real-process cross-check it is counted and the realcrash floors decide.
+            if label == 'crash':
+                ctx.inconclusive.append('%s watchdog: program %d k=%d %s' % (label, serial, r['k'], r['phase']))
+            continue
         if r['status'] == 'skipped_after_watchdogs':
             ctx.count(label + '_points_skipped'); continue
         if r['status'] == 'skipped_budget':
@@ -959,11 +968,11 @@ def run(ctx):
     template = build_template(os.path.join(base, 'template.sqlite'))
     # programs in total / of them also crashed as real processes / wall-clock budget of one real-crash driver
     if ctx.tier == 'quick': nprog, nreal, budget = 24, 3, 40.0
-    else: nprog, nreal, budget = 800, 96, 120.0
+    else: nprog, nreal, budget = 640, 64, 120.0
     serials = [i for i in range(nprog) if i % ctx.nshards == ctx.shard]
     real = set(i for i in range(nprog) if i < nreal)
     runner_box = [Runner('c17-error')]
-    pool = ThreadPoolExecutor(max_workers=2)
+    pool = ThreadPoolExecutor(max_workers=2 if ctx.tier == 'quick' else 1)
     pending = []
     try:
         for serial in serials:
